@@ -461,7 +461,8 @@ theorem whichReader_render (items : List Item) (hok : ∀ it ∈ items, it.OK)
   unfold whichReader
   rw [detectorInput_short _ short]
   have e44 : csvAll false 44 (render items) = some (items.filterMap Item.rawRecord) := csvAll_render_raw items hok hq
-  have e9 : csvAll false 9 (render items) = some _ := by
+  have e9 : csvAll false 9 (render items) =
+      some (items.filterMap (fun it => match it with | .row cs _ => some [body cs] | _ => none)) := by
     unfold csvAll
     rw [rawLines_render items hok, List.map_map]
     exact csvAll_render_tab items hok htab
@@ -475,6 +476,11 @@ theorem whichReader_render (items : List Item) (hok : ∀ it ∈ items, it.OK)
     exact congrArg some this
   have sn : ngsDetect (render items) = some (ngsOK (items.filterMap Item.rawRecord)) := by
     unfold ngsDetect ngsOK; rw [e44]; rfl
+  show (do
+    if (← svDetect 44 (render items)) then return Kind.csv
+    if (← svDetect 9 (render items)) then return Kind.old
+    if (← ngsDetect (render items)) then return Kind.csv
+    return Kind.old : Option Kind) = _
   simp only [s44, s9, sn, bind, Option.bind, pure]
   cases widthsOK (items.filterMap Item.rawRecord) <;> cases ngsOK (items.filterMap Item.rawRecord) <;> simp
 
